@@ -11,7 +11,8 @@ Local Open Scope Z_scope.
     the filing place exactly as the documented policy does — for every
     configuration (non-empty default folder), every user/role table
     (UNIQUE(username, domain)), every list of recipient addresses (any byte
-    strings) and every message — outside the three finding classes. *)
+    strings) and every message — outside the one remaining finding class
+    (quota_enabled and some recipient over quota). *)
 Theorem c17_policy_exact : forall cfg d addrs m,
   cfg_ok cfg -> wf_db d -> classify cfg d addrs m = None ->
   txn_outcomes (run_txn_addr cfg d addrs m) = map erase (fst (spec_txn cfg d addrs m)) /\
@@ -19,8 +20,9 @@ Theorem c17_policy_exact : forall cfg d addrs m,
 Proof. exact policy_exact. Qed.
 Print Assumptions c17_policy_exact.
 
-(** the same transaction given as RCPT lines "TO:<addr>" *)
+(** the same transaction given as RCPT lines "TO:<addr>" (addresses without ">") *)
 Theorem c17_lines_are_addresses : forall cfg d addrs m,
+  forallb no_gt addrs = true ->
   run_txn cfg d (map rcpt_line addrs) m = run_txn_addr cfg d addrs m.
 Proof. exact run_txn_lines. Qed.
 Print Assumptions c17_lines_are_addresses.
@@ -35,6 +37,30 @@ Theorem c17_filed_where : forall cfg d acc m r st f,
 Proof. exact filed_where. Qed.
 Print Assumptions c17_filed_where.
 
+(** F. no twins: a message lands in a role store only if the RCPT address is,
+    byte for byte, the address of an enabled role mailbox; in a user store only
+    if the address splits at its single "@" into exactly that user name and
+    domain and is no role address ("_", "%" and letter case are ordinary bytes) *)
+Theorem c17_role_store_exact : forall cfg d acc m r e f,
+  In (r, D_ok (RoleStore e) f) (do_deliveries (handle_data cfg d acc m)) ->
+  e = r /\ In (mkRole r true) (roles d).
+Proof. exact role_store_exact. Qed.
+Print Assumptions c17_role_store_exact.
+
+Theorem c17_user_store_exact : forall cfg d acc m r n dom f,
+  In (r, D_ok (UserStore n dom) f) (do_deliveries (handle_data cfg d acc m)) ->
+  extract_parts r = Some (n, dom) /\ is_role d r = false.
+Proof. exact user_store_exact. Qed.
+Print Assumptions c17_user_store_exact.
+
+Example c17_like_twin_goes_to_its_own_store :
+  let d := mkDb [mkUser (S_ "support_team") (S_ "example.com") true] [mkRole (S_ "support-team@example.com") true] [] in
+  spec_target d (S_ "support_team@example.com") = Some (UserStore (S_ "support_team") (S_ "example.com")) /\
+  spec_target d (S_ "%@example.com") = Some (UserStore (S_ "%") (S_ "example.com")) /\
+  spec_target d (S_ "SUPPORT-TEAM@example.com") = Some (UserStore (S_ "SUPPORT-TEAM") (S_ "example.com")) /\
+  spec_target d (S_ "support-team@example.com") = Some (RoleStore (S_ "support-team@example.com")).
+Proof. vm_compute. auto. Qed.
+
 (** F. the 250/550 replies of DATA tell what each DeliverMessage call did, also
     when an address is given twice (results map keyed by address) *)
 Theorem c17_replies_truthful : forall cfg d acc m replies,
@@ -45,12 +71,11 @@ Theorem c17_replies_truthful : forall cfg d acc m replies,
 Proof. exact replies_truthful. Qed.
 Print Assumptions c17_replies_truthful.
 
-(** F. the path of RCPT TO:<addr> (TO: or to:, optional blanks, no parameters)
-    is recovered for every byte string addr *)
-Theorem c17_rcpt_path : forall pre sp addr,
-  pre = S_ "TO:" \/ pre = S_ "to:" -> forallb is_space sp = true ->
-  parse_rcpt_to (pre ++ sp ++ "<"%char :: addr ++ [">"%char]) = Some addr.
-Proof. exact parse_rcpt_to_bracketed. Qed.
+(** F. every legal RCPT argument  TO:<path>[ SP esmtp-parameters]  — keyword in
+    any case, optional blanks, any parameters — yields exactly the path
+    (after the fixes C17-1 and C17-2; was refuted before) *)
+Theorem c17_rcpt_path : forall args addr, rcpt_shape args addr -> parse_rcpt_to args = Some addr.
+Proof. exact parse_rcpt_to_shape. Qed.
 Print Assumptions c17_rcpt_path.
 
 (** F. spam routing: header names case-insensitively (through net/textproto's
@@ -83,7 +108,7 @@ Print Assumptions c17_size_within.
 Theorem c17_size_over : forall cfg d acc m,
   max_size cfg < m_size m ->
   do_db (handle_data cfg d acc m) = d /\ do_deliveries (handle_data cfg d acc m) = [] /\
-  (do_reply (handle_data cfg d acc m) = DR554 \/ do_reply (handle_data cfg d acc m) = DR503).
+  (do_reply (handle_data cfg d acc m) = DR_refused 552 (length acc) \/ do_reply (handle_data cfg d acc m) = DR503).
 Proof. exact size_over. Qed.
 Print Assumptions c17_size_over.
 
@@ -99,8 +124,8 @@ Theorem c17_rcpt_452_exact : forall cfg d rec args,
 Proof. exact rcpt_452_exact. Qed.
 Print Assumptions c17_rcpt_452_exact.
 
-(** R. finding classes: each is inhabited and the model really differs from the
-    documented policy there *)
+(** R. the remaining finding class is inhabited and the model really differs
+    from the documented policy there *)
 Theorem c17_refuted_quota_not_enforced :
   exists cfg d addrs m, cfg_ok cfg /\ wf_db d /\
     classify cfg d addrs m = Some K_quota_not_enforced /\
@@ -110,49 +135,24 @@ Theorem c17_refuted_quota_not_enforced :
 Proof. exact refuted_quota. Qed.
 Print Assumptions c17_refuted_quota_not_enforced.
 
-Theorem c17_refuted_unknown_user_other_domain :
-  exists cfg d addrs m, cfg_ok cfg /\ wf_db d /\
-    classify cfg d addrs m = Some K_unknown_user_other_domain /\
-    fst (spec_txn cfg d addrs m) = [Refused WhyUnknown] /\
-    txn_outcomes (run_txn_addr cfg d addrs m) = [MFiled (UserStore (S_ "bob") (S_ "b.org")) (S_ "INBOX")] /\
-    users (do_db (to_data (run_txn_addr cfg d addrs m))) = users d ++ [mkUser (S_ "bob") (S_ "b.org") true].
-Proof. exact refuted_unknown_user_other_domain. Qed.
-Print Assumptions c17_refuted_unknown_user_other_domain.
+(** regression examples about the code BEFORE the fixes C17-1/2/3 (old
+    definitions, not the current model) *)
+Example c17_old_rcpt_params :
+  old_parse_rcpt_to (S_ "TO:<a@b.org> NOTIFY=NEVER") = Some (S_ "a@b.org> NOTIFY=NEVER") /\
+  parse_rcpt_to (S_ "TO:<a@b.org> NOTIFY=NEVER") = Some (S_ "a@b.org").
+Proof. vm_compute. auto. Qed.
 
-Theorem c17_refuted_role_rejected_as_unknown :
-  exists cfg d addrs m, cfg_ok cfg /\ wf_db d /\
-    classify cfg d addrs m = Some K_role_rejected_as_unknown /\
-    fst (spec_txn cfg d addrs m) = [FiledIn (RoleStore (S_ "support@a.org")) (S_ "INBOX")] /\
-    txn_outcomes (run_txn_addr cfg d addrs m) = [MRefused].
-Proof. exact refuted_role_rejected. Qed.
-Print Assumptions c17_refuted_role_rejected_as_unknown.
+Example c17_old_rcpt_prefix_case :
+  old_parse_rcpt_to (S_ "To:<bob@a.org>") = Some (S_ "To:<bob@a.org") /\
+  parse_rcpt_to (S_ "To:<bob@a.org>") = Some (S_ "bob@a.org").
+Proof. vm_compute. auto. Qed.
 
-(** R. RCPT syntax classes: legal RCPT arguments (rcpt_shape) whose path is not
-    what parseRcptTo returns, and where the message then goes *)
-Theorem c17_rcpt_params_general : forall addr p c,
-  is_space c = false -> Ascii.eqb ">"%char c = false ->
-  parse_rcpt_to (S_ "TO:<" ++ addr ++ S_ "> " ++ p ++ [c]) = Some (addr ++ S_ "> " ++ p ++ [c]).
-Proof. exact parse_rcpt_to_params. Qed.
-Print Assumptions c17_rcpt_params_general.
-
-Theorem c17_rcpt_prefix_case_general : forall addr,
-  parse_rcpt_to (S_ "To:<" ++ addr ++ S_ ">") = Some (S_ "To:<" ++ addr).
-Proof. exact parse_rcpt_to_mixed_case. Qed.
-Print Assumptions c17_rcpt_prefix_case_general.
-
-Theorem c17_refuted_rcpt_params :
-  exists cfg d args addr m, rcpt_shape args addr /\
-    spec_target d addr = Some (UserStore (S_ "a") (S_ "b.org")) /\
-    txn_outcomes (run_txn cfg d [args] m) = [MFiled (UserStore (S_ "a") (S_ "b.org> NOTIFY=NEVER")) (S_ "INBOX")].
-Proof. exact refuted_rcpt_params_filed. Qed.
-Print Assumptions c17_refuted_rcpt_params.
-
-Theorem c17_refuted_rcpt_prefix_case :
-  exists cfg d args addr m, rcpt_shape args addr /\
-    spec_target d addr = Some (UserStore (S_ "bob") (S_ "a.org")) /\
-    txn_outcomes (run_txn cfg d [args] m) = [MFiled (UserStore (S_ "To:<bob") (S_ "a.org")) (S_ "INBOX")].
-Proof. exact refuted_rcpt_prefix_case_filed. Qed.
-Print Assumptions c17_refuted_rcpt_prefix_case.
+Example c17_old_recipient_test :
+  old_check_recipient_exists w_db (S_ "bob@b.org") = Some true /\
+  check_recipient_exists w_db (S_ "bob@b.org") = Some false /\
+  old_check_recipient_exists w_db (S_ "support@a.org") = Some false /\
+  check_recipient_exists w_db (S_ "support@a.org") = Some true.
+Proof. vm_compute. auto. Qed.
 
 (** non-vacuity: the hypotheses of c17_policy_exact are satisfiable on a
     transaction that exercises every RCPT-time policy, a role address, a
